@@ -352,11 +352,15 @@ class Gen:
         fid = pos[0]
         props = kv.get('props', '').split(',') if kv.get('props') else []
         fsrc = read_repo(kv['file'])
+        region_lost = None
         try:
             it = rs.find_fn(fsrc, kv['name'], kv.get('impl'), kv['file'], kv.get('mod'))
         except LookupError as e:
-            raise Undecided(f'lost anchor for {fid}: {e}')
-        region_lost = None
+            # the function under contract cannot be found any more (removed, renamed, merged into another one): its contract stays
+            # as an unproved stub for its callers (like any body out of reach) instead of aborting the whole unit
+            it = rs.Item(fsrc + '\n{ }', len(fsrc) + 1, len(fsrc) + 1, len(fsrc) + 4, kv['file'])
+            region_lost = f'lost anchor for {fid}: {e}'
+            kv = {k: v for k, v in kv.items() if not k.startswith('region_')}
         if 'region_block' in kv:
             # the region is the INSIDE of the brace block whose head starts on the (unique) line matching the regex -- e.g. a loop
             # body, however its statements are written
@@ -476,7 +480,7 @@ class Gen:
             x = re.sub(r'\bpub(\([a-z ]+\))?\s+', '', x)
             x = re.sub(r'\bconst\s+fn\b', 'fn', x)
             return x
-        if orig is not None and _sig_core(orig) != _sig_core(it.signature):
+        if orig is not None and not region_lost and _sig_core(orig) != _sig_core(it.signature):
             raise Undecided(f'{fid}: signature in {kv["file"]}:{it.line_start} is now `{rs.norm_ws(it.signature)}`; '
                             f'the contract was written for `{rs.norm_ws(orig)}` (contract needs review)')
         # (signature + contract are emitted by emit_copy below, after the body is prepared)
